@@ -109,6 +109,21 @@ func (c *countReader) Read(p []byte) (int, error) {
 	return n, err
 }
 
+// nestedReader delivers the bytes of r; before every delivery after the first it decodes one ITF-8
+// and one LTF-8 number from a stream of its own through the same stream readers.
+type nestedReader struct {
+	r     io.Reader
+	calls int
+}
+
+func (n *nestedReader) Read(p []byte) (int, error) {
+	if n.calls++; n.calls > 1 {
+		cram.VerifITF8(bytes.NewReader([]byte{0xbf, 0xff}))
+		cram.VerifLTF8(bytes.NewReader([]byte{0xc1, 0x02, 0x03}))
+	}
+	return n.r.Read(p)
+}
+
 func dec(t *tr.Writer, kind string, b []byte) {
 	res := "ok"
 	var v []int
@@ -132,9 +147,12 @@ func dec(t *tr.Writer, kind string, b []byte) {
 	// stream readers of package cram over exactly these bytes, delivered in the ways an io.Reader
 	// may deliver them: all at once with io.EOF on the next call, the last bytes together with
 	// io.EOF, one byte per call, half of what is asked for per call
-	for _, rk := range []string{"plain", "dataerr", "onebyte", "half"} {
+	// ("nested": a source that itself decodes a number of another stream between the bytes it hands out)
+	for _, rk := range []string{"plain", "dataerr", "onebyte", "half", "nested"} {
 		var src io.Reader = bytes.NewReader(b)
 		switch rk {
+		case "nested":
+			src = &nestedReader{r: iotest.OneByteReader(src)}
 		case "dataerr":
 			src = iotest.DataErrReader(src)
 		case "onebyte":
